@@ -32,7 +32,11 @@ class TimeOut(BaseException):
     """not an Exception subclass: sympy/lcapy `except Exception` blocks must not swallow it"""
 
 
+FIRED = [0]
+
+
 def _alarm(*a):
+    FIRED[0] += 1
     raise TimeOut()
 
 
@@ -42,10 +46,18 @@ BUDGET = int(os.environ.get('C11_BUDGET', '45'))      # seconds per case
 
 
 def guarded(fn):
-    # repeating timer: if a bare `except:` swallows the first signal, the next one follows
+    """run fn under a time limit.  The timer repeats every second, so that a
+    bare `except:` in lcapy/sympy cannot swallow the interruption for good; and
+    if the timer fired at all, the result is DISCARDED even when fn returned
+    normally (an interrupted computation may have taken a fallback path)."""
+    FIRED[0] = 0
     signal.setitimer(signal.ITIMER_REAL, TLIM, 1.0)
     try:
-        return fn(), None
+        r = fn()
+        signal.setitimer(signal.ITIMER_REAL, 0)
+        if FIRED[0]:
+            return None, 'timeout (interrupted, result discarded)'
+        return r, None
     except TimeOut:
         return None, 'timeout'
     except NotExact as e:
@@ -126,6 +138,7 @@ def run_case(c):
     if err:
         return {'error': 'decomp: ' + err}
 
+    tainted = False
     for key, name, kw in c['methods']:
         kw = dict(kw)
 
@@ -214,8 +227,14 @@ def run_case(c):
         if time.time() - t_start > BUDGET:
             out['m'][key] = {'error': 'budget: case time budget exhausted'}
             continue
+        if tainted:
+            out['m'][key] = {'error': 'tainted: an earlier method of this case was interrupted'}
+            continue
         res, err = guarded(one)
         out['m'][key] = res if err is None else {'error': err}
+        if err and err.startswith('timeout'):
+            # caches of H / its Ratfun may hold the outcome of an interrupted computation
+            tainted = True
     return out
 
 
